@@ -79,7 +79,7 @@ def graph_specs(ctx) -> list[dict]:
     specs += [{"family": "tagged_ladder", "depth": d} for d in depths]
     specs += [{"family": "every_edge", "dedup": True}, {"family": "every_edge", "dedup": True, "loopy": True},
               {"family": "all_kinds", "dedup": True}]
-    nr = 60 if ctx.thorough else 12
+    nr = 90 if ctx.thorough else 24
     base = ctx.seed * 10000
     specs += [{"family": "random_plain", "seed": base + i, "size": 30} for i in range(nr)]
     specs += [{"family": "random_plain", "seed": base + 300 + i, "size": 20, "n_outputs": 0} for i in range(nr // 3)]
@@ -140,11 +140,11 @@ def guarded(fn, *a, **kw):
 
 def attribute_raise(t: ch.Tables, fn_name: str, err, kinds_present: set[str]) -> str:
     refused = ch.refused_kinds(t, fn_name)
-    cands = sorted(k for k, x in refused.items()
-                   if k in kinds_present and x == type(err).__name__ and k != "FunctionDefinition")
+    cands = sorted(k for k, x in refused.items() if k in kinds_present and x == type(err).__name__)
     if not cands:
         return "unattributed"
-    # a Call cannot occur without its function: name the Call
+    # a FunctionDefinition is reachable only through a Call: name the Call
+    cands = sorted({"Call" if k == "FunctionDefinition" else k for k in cands})
     return cands[0]
 
 
@@ -259,7 +259,10 @@ def check_users(ctx, t: ch.Tables, cases: list[GraphCase], table_sigs: set[str])
                 if ui is None:
                     ctx.broken.append(f"correspondence:users:key-not-in-graph:{case.spec}")
                     continue
-                real[ui] = sorted(case.idx(x) if case.idx(x) is not None else -1 for x in users)
+                # users through a DERIVED shape component (Einsum, CSRMatmul report them) are not edges
+                # of the stored graph: outside the model, covered by the converse check below
+                real[ui] = sorted(case.idx(x) if case.idx(x) is not None else -1 for x in users
+                                  if case.idx(x) is None or edge_class_between(v, case.idx(x), ui))
             pend.append(("LU", case, real, len(queries)))
             queries.append(f"(mapper users {case.hx} {v.root} {heapser.excl(walkL)} {heapser.excl(tblL)})")
         if not isinstance(uc, Raised):
@@ -276,6 +279,8 @@ def check_users(ctx, t: ch.Tables, cases: list[GraphCase], table_sigs: set[str])
                         extra_send += 1          # the DistributedSend object (not a graph node)
                     elif v.kind(xi) == "NamedCallResult" and ui not in [j for _, _, j in v.edges[xi]]:
                         extra_ncr += 1           # user of the CALL's binding attributed to the call result
+                    elif not edge_class_between(v, xi, ui):
+                        pass                     # through a derived shape component (see above)
                     else:
                         ids.add(xi)
                 real[ui] = sorted(ids)
@@ -296,13 +301,8 @@ def check_users(ctx, t: ch.Tables, cases: list[GraphCase], table_sigs: set[str])
                         ctx.broken.append(f"correspondence:preds:foreign-object:{v.kind(i)}:{case.spec}")
                     continue
                 if not edge_class_between(v, i, pi):
-                    # a graph object that is not a stored child: derived shape component (e.g. the SizeParam)
-                    if (index_kind(v.kind(i)), "dshape") not in {(index_kind(a), b) for a, b in table_pairs}:
-                        dis += 1
-                        ctx.violation(f"users-disagree:{v.kind(i)}:dshape:L-U-P+",
-                                      f"ListOfDirectPredecessorsGetter reports a derived shape component as predecessor "
-                                      f"of a {v.kind(i)} node; no users collector reports the converse",
-                                      {"check": "users", "graph": case.spec, "node": c13.describe(v.nodes[i])})
+                    # a graph object that is not a stored child: a derived shape component (e.g. the
+                    # SizeParam itself) — outside the model, covered by the converse check below
                     continue
                 ids.append(pi)
             real[i] = ids
@@ -381,7 +381,7 @@ def check_topo(ctx, t: ch.Tables, cases: list[GraphCase]):
         n += 1
         if isinstance(r, Raised):
             dis += 1
-            report_raise(ctx, t, "TopoSortMapper", case, r.e, case.outer_kinds | ({"Call"} & case.kinds_present))
+            report_raise(ctx, t, "TopoSortMapper", case, r.e)
             continue
         order = [case.idx(x) for x in m.topological_order]
         if None in order:
@@ -686,8 +686,6 @@ def run(ctx: common.Ctx):
     ctx.coverage["distribution"] = {"graphs": len(cases), "node_kinds": dict(dist),
                                     "sizes": sorted(len(c.v.nodes) for c in cases),
                                     "with_duplicates": sum(c.dups for c in cases)}
-    bad = [c.spec for c in cases if common.driver_query([f"(mapper wf {c.hx})"])[0] != "ok #t"][:3] \
-        if False else []
     wf = common.driver_query_parallel([f"(mapper wf {c.hx})" for c in cases])
     for c, a in zip(cases, wf):
         if a != "ok #t":
